@@ -249,7 +249,9 @@ func runC15(c *Ctx) {
 		}
 		// R15.2 closing
 		if strings.Contains(cd.outer, "ByteStream") {
-			optClose := factBool(vFieldLoad("rt.byteStreamOpts", "Close", nil), true)
+			// (the option as read from the folded options, directly or through a flag copied out of them once)
+			isOptClose := vFieldLoad("rt.byteStreamOpts", "Close", nil)
+			optClose := factBool(func(v ssa.Value) bool { return isOptClose(v) || vFieldLoadO("rt.byteStreamOpts", "Close")(v) }, true)
 			var closerDefer *ssa.Defer
 			isCloserType := func(t types.Type) bool {
 				sig, ok := t.Underlying().(*types.Signature)
@@ -474,6 +476,32 @@ func runC15(c *Ctx) {
 			for _, ci := range callsIn(f, "(reflect.Value).SetString") {
 				ok := guardedBy(ci, nil, kindIs(int64(reflect.String), false))
 				c.obI("R15.3", ci, "SetString-needs-string", ok, "SetString is reached only after the destination's kind was tested to be String", "SetString is reachable without the kind test")
+			}
+		}
+		// a decoding consumer hands the STREAM ITSELF to its decoder: the document is decoded as it arrives, not a trimmed,
+		// re-buffered or otherwise edited copy of it (leading/trailing bytes can be significant: YAML block scalars)
+		if strings.HasSuffix(cd.outer, "Consumer") {
+			for _, ci := range allCalls(f) {
+				n := calleeName(ci.Common())
+				if !strings.HasSuffix(n, ".NewDecoder") || ci.Common().IsInvoke() {
+					continue
+				}
+				okS, bad := allOrigins(ci.Common().Args[0], oIsValue(stream))
+				c.obI("R15.6", ci, "decoder-reads-the-stream-itself", okS, "the consumer's decoder is constructed over the reader it was given", "the decoder reads "+describeOrigin(bad))
+			}
+		}
+		// reflect.Value.Bytes needs a SLICE of bytes (a byte array only when addressable, which a payload passed by value is
+		// not): it is reached only behind Kind() == Slice and an element kind of Uint8
+		{
+			kindEq := func(k int64) EdgePred {
+				return factEqInt(func(v ssa.Value) bool {
+					kc := asCall(v)
+					return kc != nil && (strings.HasSuffix(calleeName(&kc.Call), ".Kind") || kc.Call.IsInvoke() && kc.Call.Method.Name() == "Kind")
+				}, k, true)
+			}
+			for _, ci := range callsIn(f, "(reflect.Value).Bytes") {
+				ok := guardedBy(ci, nil, kindEq(int64(reflect.Slice))) && guardedBy(ci, nil, kindEq(int64(reflect.Uint8)))
+				c.obI("R15.3", ci, "Bytes-needs-byte-slice", ok, "reflect.Value.Bytes is reached only after the value's kind was tested to be Slice and its element kind Uint8", "Bytes is reachable for a value that is not a byte slice (a byte array passed by value panics: not addressable)")
 			}
 		}
 		// R15.5 no aliasing of stored bytes
